@@ -63,6 +63,131 @@ def same(a, b, mode):
     return (a["in"], a["out"], a["ev"]) == (b["in"], b["out"], b["ev"])
 
 
+# ------------------------------------------------------------------------------------------------
+# identification of the LZMA2 chunk-overrun finding (see findings/C06-lzma2-chunk-overrun.md)
+# ------------------------------------------------------------------------------------------------
+CHECK_SIZE = {0: 0, 1: 4, 2: 4, 3: 4, 4: 8, 5: 8, 6: 8, 7: 16, 8: 16, 9: 16, 10: 32, 11: 32, 12: 32, 13: 64, 14: 64, 15: 64}
+
+
+def _vli(data, o):
+    v, sh = 0, 0
+    for i in range(9):
+        if o + i >= len(data):
+            return None, o
+        b = data[o + i]
+        v |= (b & 0x7F) << sh
+        sh += 7
+        if not b & 0x80:
+            return v, o + i + 1
+    return None, o
+
+
+def lzma2_chunks(data, o):
+    """Walk LZMA2 chunk headers from offset o. Yields (kind, header_off, data_off, data_end, usize); kind 'L' LZMA, 'U' uncompressed,
+    'E' end marker. Stops at anything that does not parse."""
+    n = len(data)
+    while o < n:
+        c = data[o]
+        if c == 0:
+            yield ("E", o, o + 1, o + 1, 0)
+            return
+        if c >= 0x80:
+            hl = 6 if c >= 0xC0 else 5
+            if o + hl > n:
+                return
+            us = (((c & 0x1F) << 16) | (data[o + 1] << 8) | data[o + 2]) + 1
+            cs = ((data[o + 3] << 8) | data[o + 4]) + 1
+            yield ("L", o, o + hl, o + hl + cs, us)
+            o += hl + cs
+        elif c in (1, 2):
+            if o + 3 > n:
+                return
+            cs = ((data[o + 1] << 8) | data[o + 2]) + 1
+            yield ("U", o, o + 3, o + 3 + cs, cs)
+            o += 3 + cs
+        else:
+            return
+
+
+def xz_lzma2_chunks(data):
+    """All LZMA2 chunks of all Blocks of all Streams of an .xz file, as far as the container parses (tolerant walker)."""
+    out = []
+    n = len(data)
+    o = 0
+    while o + 12 <= n and data[o:o + 6] == b"\xfd7zXZ\x00":
+        csz = CHECK_SIZE[data[o + 7] & 0x0F]
+        o += 12
+        while o < n and data[o] != 0:
+            bstart = o
+            o += (data[o] + 1) * 4
+            end = None
+            for ch in lzma2_chunks(data, o):
+                out.append(ch)
+                if ch[0] == "E":
+                    end = ch[3]
+            if end is None:
+                return out
+            o = end + (-(end - bstart)) % 4 + csz
+        if o >= n:
+            return out
+        # Index
+        istart = o
+        cnt, o = _vli(data, o + 1)
+        if cnt is None or cnt > 100000:
+            return out
+        for _ in range(2 * cnt):
+            v, o = _vli(data, o)
+            if v is None:
+                return out
+        o += (-(o - istart)) % 4 + 4 + 12
+        while o + 4 <= n and data[o:o + 4] == b"\0\0\0\0":
+            o += 4
+    return out
+
+
+def classify_lzma2_overrun(H, coder, data):
+    """True iff `data`, fed to the single-threaded twin of `coder` one byte at a time, is rejected with LZMA_DATA_ERROR exactly when the
+    first byte after the compressed data of an LZMA2 LZMA chunk is consumed while that chunk's uncompressed size has not been reached,
+    i.e. the error is `in_used > coder->compressed_size` in lzma2_decode()."""
+    kind = coder.split(":")[0]
+    base = 0   # offset of the coder's total_in origin inside `data`
+    if kind in ("sd", "auto", "sdmt"):
+        flags = int(coder.split(":")[1]) & (CONCAT | IGNORE)
+        st = "sd:%d:0" % flags
+        chunks = xz_lzma2_chunks(data)
+    elif kind == "blockd":
+        st = coder
+        if not data:
+            return False
+        hs = (data[0] + 1) * 4
+        base = hs
+        chunks = [(k, h - hs, s - hs, e - hs, u) for (k, h, s, e, u) in lzma2_chunks(data, hs)]
+    elif kind == "rawd" and "lzma2" in coder.split("+")[-1]:
+        st = coder
+        chunks = list(lzma2_chunks(data, 0))
+    else:
+        return False
+    o = H.run(["run %s F %s fresh hash B:4" % (st, hx(data))])[0]
+    r = parse_results(o or "")
+    if not r or r[0]["ret"] != 9:
+        return False
+    r = r[0]
+    ucum = 0
+    for (k, h, s, e, u) in chunks:
+        ucum += u
+        if k == "L" and e + 1 == r["in"]:
+            # Not to be confused with an error raised by the control byte of the NEXT chunk (also at e + 1): right after a completed
+            # LZMA chunk only the control values 0x03..0x7F are rejected; and before the chunk's uncompressed size is reached the
+            # decoder is still inside this chunk anyway.
+            nxt = data[e + base] if 0 <= e + base < len(data) else 0
+            if r["bcj"] or r["out"] < ucum or not (3 <= nxt <= 0x7F):
+                return True
+    return False
+
+
+KEY_OVERRUN = "C06:lzma2-chunk-overrun"
+
+
 class Harness:
     def __init__(self, ctx, exe):
         self.ctx, self.exe = ctx, exe
@@ -750,8 +875,13 @@ def oracle(ctx, H):
                 note = "" if differs else "seen inside a sweep that reuses one lzma_stream; not reproduced with fresh streams"
                 if not differs:
                     res = [ref[0]["text"], dm.group(2)]
-                ctx.violation("slicing-%s" % kind, replay_dict("slicing-dependence", s["data"], s["cmp"], runs_, res, note + " source=" + s["tag"]), True)
-                nviol += 1
+                key = None
+                if ref[0]["ret"] == 9 and classify_lzma2_overrun(H, s["coder"], s["data"]):
+                    key = KEY_OVERRUN
+                    ctx.count("finding:lzma2-chunk-overrun")
+                    note += " [LZMA2 chunk overrun: lzma2_decode() lets the LZMA decoder read past the chunk's compressed size and reports the error afterwards]"
+                if ctx.violation("slicing-%s" % kind, replay_dict("slicing-dependence", s["data"], s["cmp"], runs_, res, note + " source=" + s["tag"]), True, key=key) is not None:
+                    nviol += 1
                 break
     # group comparisons (determinism across thread counts, timeouts, chain notations, ST vs MT)
     glines, gidx = [], []
